@@ -79,6 +79,22 @@ CHECKS = {
          "association value is recomputed exactly by the Lean search model, first entry = raw distribution, last viable entry = fitted grouping.",
     ref="DESIGN.md section 8 C16", technique="Lean 4 proof about the summary model + exact recomputation of history by the search model",
     note=BASE_NOTE + " Row order / content order of the summary frame are not compared."),
+ "C08": dict(
+    text="Lean theorems: _remove_feature removes a feature from every per-feature attribute and touches no other feature (removeFeature_all_attributes / _frame); after the final "
+         "BaseDiscretizer.fit the label table's keys are exactly the kept features and the only failures are the missing-order AssertionError or an unbuildable label table "
+         "(fit_error_cases, fit_labels_keys); the numeric cores are total functions (C09) and the repaired measure cannot raise (C01). On the code: the three carvers and seven "
+         "discretizer classes are fitted on degenerate / adversarial well-formed samples; outcome class (ok / AssertionError / other) and, when ok, key sets of every attribute, "
+         "summary/history, well-formedness and coverage of each values_orders entry, untouched dropped columns.",
+    ref="DESIGN.md section 8 C08", technique="Lean 4 proof (frame conditions of feature removal, key-set coherence) + exploration of degenerate inputs on the real code",
+    note=BASE_NOTE + " 'Never an internal error' is provable only for the modelled cores; crashes in pandas/numpy glue are found (or not) by running the real code (partial)."),
+ "C09": dict(
+    text="Lean theorems about the model of find_quantiles and find_common_modalities, for arbitrary values of the float kernels: boundaries are strictly increasing observed values, "
+         "every value with count >= len/q is a boundary (frequent_is_boundary; the min_freq form holds when 1/q <= min_freq, counterexample otherwise = known finding C09-q-rounding), "
+         "find_closest_modality only proposes a neighbour, each loop iteration removes one modality and when the loop stops every bucket reaches min_freq or one bucket remains "
+         "(mergeLoop_result, with the number of modalities as fuel). Correspondence: find_quantiles and find_common_modalities of the real code vs the model on thousands of tied "
+         "multisets / rankings, float kernels self-tested against numpy; judged on six discretizer classes over the min_freq grid.",
+    ref="DESIGN.md section 8 C09", technique="Lean 4 proof (loop invariant / termination, sortedness, membership) + function-level model/code correspondence",
+    note=BASE_NOTE + " The 2.5*min_freq bucket bound is judged on the code only (it needs accuracy of numpy's float quantile index)."),
 }
 NOT_YET = "check not built yet (construction in progress, see DESIGN.md section 13); will be claimed once its model, theorems and correspondence exist"
 
